@@ -145,6 +145,15 @@ def positions(chk):
             d = lambda lo, hi: Fraction(rng.randrange(lo * S, hi * S), S)
             t = [d(-1000, 1000), d(0, 256), d(-1000, 1000), d(-720, 720), d(-360, 360)]
             p = [d(-1000, 1000), d(-64, 64), d(-1000, 1000), d(-720, 720), d(-360, 360)]
+            if rng.random() < 0.35:
+                # sums and absolute angles landing exactly on 0, one turn, two turns, minus one turn
+                for j in (3, 4):
+                    goal = Fraction(rng.choice([0, 360, 720, -360, 180, 359]))
+                    if flags & (8 if j == 3 else 16):
+                        t[j] = Fraction(rng.choice([0, 90, 180, 270, 360, -90]))
+                        p[j] = goal - t[j]
+                    else:
+                        p[j] = goal
             target = PositionAndLook(x=float(t[0]), y=float(t[1]), z=float(t[2]), yaw=float(t[3]), pitch=float(t[4]))
             pk = P()
             pk.x, pk.y, pk.z, pk.yaw, pk.pitch, pk.flags = [float(v) for v in p] + [flags]
